@@ -40,7 +40,7 @@ Definition J (s : cst) (a : action) : Prop :=
   | Call KClose => (exists ro re, pc s = PClose ro re) /\ c_in (cm s) = true /\ c_input (cm s) = []
   | Call (KPoll fi fo fe t) => fi = c_in (cm s) /\ fo = oref s /\ fe = eref s
                                /\ (fi || fo || fe = true)
-                               /\ ((exists ovf, pc s = PPoll None ovf /\ deadline s = None /\ t = (-1)%Z)
+                               /\ ((pc s = PPoll None false /\ deadline s = None /\ t = (-1)%Z /\ limit_reached s = false)
                                    \/ (exists d ovf, pc s = PPoll (Some d) ovf /\ deadline s <> None /\ (0 <= t)%Z))
   | Call KClock => (exists tl, pc s = PStart tl)
                    \/ ((pc s = PClock1 \/ (exists t, pc s = PClock2 t) \/ (exists d, pc s = PClock3 d))
@@ -109,7 +109,7 @@ Proof.
     destruct (c_in (cm s)) eqn:Ci; destruct (oref s) eqn:Co; destruct (eref s) eqn:Ce;
       try discriminate;
       try (split; [reflexivity|]; cbn [J fst snd set_pc pc cm oref eref deadline]; rewrite ?Ci, ?Co, ?Ce, ?D;
-           repeat split; try reflexivity; left; eexists; auto).
+           repeat split; try reflexivity; left; repeat split; auto).
     + (* stdin only *)
       unfold with_flags, io_in. rewrite Ci. cbn [andb fst snd]. split; [reflexivity|].
       cbn [J set_pc pc cm]. split; [eexists; eexists; reflexivity|]. auto.
@@ -271,7 +271,7 @@ Lemma step_poll_data s fi fo fe t cnt ri ro re : J s (Call (KPoll fi fo fe t)) -
 Proof.
   intros Hj. unfold step.
   assert (exists pdl ovf, pc s = PPoll pdl ovf) as [pdl [ovf P]].
-  { cbn [J] in Hj. destruct Hj as [_ [_ [_ [_ [[ovf [P _]]|[d [ovf [P _]]]]]]]]; eauto. }
+  { cbn [J] in Hj. destruct Hj as [_ [_ [_ [_ [[P _]|[d [ovf [P _]]]]]]]]; eauto. }
   rewrite P. destruct (negb (cnt =? 0) || negb ovf); [apply after_flags_spec|].
   destruct pdl; reflexivity.
 Qed.
